@@ -238,7 +238,12 @@ def parse_raw_http(data: bytes) -> Union[HttpRequest, HttpResponse]:
     uri = uri.decode("ascii", errors="ignore").encode()
     result = urlsplit(uri)
     uri = result.path
-    params = dict(parse_qsl(result.query))
+    # parse_qsl() on a bytes query re-encodes every unquoted field as ASCII and raises
+    # UnicodeEncodeError for %80..%FF; unquote via latin-1 so that every byte value survives.
+    params = {
+        key.encode("latin-1"): value.encode("latin-1")
+        for key, value in parse_qsl(result.query.decode("ascii"), encoding="latin-1")
+    }
     return HttpRequest(method=method, body=body, headers=headers, uri=uri, params=params)
 
 
